@@ -11,7 +11,7 @@ Open Scope list_scope.
 Lemma label_to_cmp : forall k l r, label (to_cmp k l r) = l.
 Proof.
   intros k l [i p]. unfold to_cmp. simpl. destruct (p_bad p); [reflexivity|].
-  destruct (p_pb p && k); [destruct (p_xraise p)|]; reflexivity.
+  unfold logged. destruct (p_pb p && k); [destruct (p_xraise p)|]; destruct (p_render p); reflexivity.
 Qed.
 
 Lemma iteration_label : forall c x s v s', iteration c x s = IYield v s' -> label v = fst x.
@@ -584,6 +584,7 @@ Proof.
   - apply (step_stuck c l BDrops ev sv o a clk ps WIdle None); auto.
   - destruct Hcl as [Hcl|Hcl]; [discriminate|]. apply step_dies_before; auto.
   - apply step_answer; auto.
+  - apply step_answer; auto.
 Qed.
 
 (** * Part C - whole runs *)
@@ -682,6 +683,7 @@ Qed.
 Definition is_fault (c : cfg) (b : behaviour) : bool :=
   match b with
   | BPlayerRaises | BExtractorRaises | BComparatorRaises | BBadAnswer _ => true
+  | BReturns v => negb (renderable v)       (* a verdict the framework cannot render in its log line *)
   | _ => match fate c b with Some _ => true | None => false end
   end.
 
@@ -691,7 +693,8 @@ Proof.
   intros c l b H. unfold single. simpl.
   destruct (fate c b) eqn:F; [split; reflexivity|].
   destruct b; simpl in *; try discriminate; try rewrite F in H; try discriminate;
-    unfold to_cmp; simpl; destruct (keep c); split; reflexivity.
+    unfold to_cmp, logged; simpl; try (apply negb_true_iff in H; rewrite H);
+    destruct (keep c); split; reflexivity.
 Qed.
 
 Lemma single_attribution : forall c l b,
@@ -699,7 +702,9 @@ Lemma single_attribution : forall c l b,
 Proof.
   intros c l b. unfold single. simpl. destruct (fate c b); [split; [reflexivity|left; reflexivity]|].
   split; [apply label_to_cmp|]. unfold to_cmp. simpl. destruct (p_bad (answer_of b)); [left; reflexivity|].
-  destruct (p_pb (answer_of b)); destruct (keep c); simpl; try destruct (p_xraise (answer_of b)); simpl; auto.
+  unfold logged.
+  destruct (p_pb (answer_of b)); destruct (keep c); simpl; try destruct (p_xraise (answer_of b)); simpl;
+    destruct (p_render (answer_of b)); simpl; auto.
 Qed.
 
 Lemma honest_verdict : forall c l b, fate c b = None ->
@@ -708,7 +713,41 @@ Proof.
   intros c l b F. unfold single. simpl. rewrite F. unfold to_cmp. simpl.
   destruct (p_bad (answer_of b)) eqn:B; [right; reflexivity|].
   assert (E : answer_of b = play b) by (destruct b; try reflexivity; simpl in B; discriminate).
-  rewrite E. destruct (p_pb (play b) && keep c); [destruct (p_xraise (play b))|]; auto.
+  rewrite E. unfold logged.
+  destruct (p_pb (play b) && keep c); [destruct (p_xraise (play b))|]; destruct (p_render (play b)); auto.
+Qed.
+
+(** the verdict handed on is the comparator's own, whole: a verdict of shape [v] that the framework can render
+    reaches the consumer with the comparator's status, its diff (attributed to that recording) and its class -
+    in whichever mode, with or without keeping results; one it cannot render is a framework failure of that
+    recording, with nothing attached *)
+Lemma verdict_is_the_comparators : forall c l v,
+  let x := single c (l, BReturns v) in
+  label x = l /\
+  (renderable v = true ->
+     (forall s, vs_status v = VEnum s -> verdict x = s) /\
+     vdiff x = (if vs_diff v then Some l else None) /\ vsub x = vs_sub v /\ attached x = Some l) /\
+  (renderable v = false ->
+     verdict x = EqualizerFailure /\ message x = MRender /\ vdiff x = None /\ vsub x = false /\ attached x = None).
+Proof.
+  intros c l v. unfold single. cbn [fate snd fst answer_of play]. unfold to_cmp, logged.
+  cbn [snd fst p_bad p_pb p_xraise p_render p_diff p_sub p_status p_msg p_f1 p_f2 andb].
+  destruct (keep c); destruct (renderable v) eqn:R; cbn; (split; [reflexivity|]); split; intros H; try discriminate;
+    repeat split; try reflexivity; intros s E; rewrite E; reflexivity.
+Qed.
+
+(** failure verdicts never carry a diff or a subclass instance *)
+Lemma failure_cmp_plain : forall l m, vdiff (failure_cmp l m) = None /\ vsub (failure_cmp l m) = false.
+Proof. intros; split; reflexivity. Qed.
+
+(** the diff attached to a recording's verdict is its own, or none *)
+Lemma single_diff_attribution : forall c l b,
+  vdiff (single c (l, b)) = None \/ vdiff (single c (l, b)) = Some l.
+Proof.
+  intros c l b. unfold single. simpl. destruct (fate c b); [left; reflexivity|].
+  unfold to_cmp, logged. simpl. destruct (p_bad (answer_of b)); [left; reflexivity|].
+  destruct (p_pb (answer_of b)); destruct (keep c); simpl; try destruct (p_xraise (answer_of b)); simpl;
+    destruct (p_render (answer_of b)); destruct (p_diff (answer_of b)); simpl; auto.
 Qed.
 
 (** ** C08: in-process and dedicated mode agree *)
@@ -863,11 +902,11 @@ Lemma late_answer_witness :
   let c := cfg_legacy 5 2 in
   let s := [(1, BEqual); (2, BAnswersLate); (3, BEqual); (4, BDifferent)] in
   exists s1, run_dedicated c s =
-    ([Cmp 1 Equal MCmp (Some 1) false false TFalse TFalse;
-      Cmp 2 EqualizerFailure MTimeout None false false TFalse TFalse;
-      Cmp 3 Equal MCmp (Some 2) false false TFalse TFalse;
-      Cmp 4 Equal MCmp (Some 3) false false TFalse TFalse], Completed, s1)
-    /\ single c (4, BDifferent) = Cmp 4 Different MCmp (Some 4) false false TFalse TFalse
+    ([Cmp 1 Equal MCmp (Some 1) false false TFalse TFalse None false;
+      Cmp 2 EqualizerFailure MTimeout None false false TFalse TFalse None false;
+      Cmp 3 Equal MCmp (Some 2) false false TFalse TFalse None false;
+      Cmp 4 Equal MCmp (Some 3) false false TFalse TFalse None false], Completed, s1)
+    /\ single c (4, BDifferent) = Cmp 4 Different MCmp (Some 4) false false TFalse TFalse None false
     /\ length (results (sh s1)) = 1.
 Proof. eexists. split; [vm_compute; reflexivity|]. split; reflexivity. Qed.
 
@@ -876,10 +915,10 @@ Lemma stale_task_witness :
   let c := cfg_legacy 5 2 in
   let s := [(1, BEqual); (2, BDiesBefore); (3, BEqual); (4, BDifferent)] in
   exists s1, run_dedicated c s =
-    ([Cmp 1 Equal MCmp (Some 1) false false TFalse TFalse;
-      Cmp 2 EqualizerFailure MDied None false false TFalse TFalse;
-      Cmp 3 Equal MCmp (Some 2) false false TFalse TFalse;
-      Cmp 4 Equal MCmp (Some 3) false false TFalse TFalse], Completed, s1)
+    ([Cmp 1 Equal MCmp (Some 1) false false TFalse TFalse None false;
+      Cmp 2 EqualizerFailure MDied None false false TFalse TFalse None false;
+      Cmp 3 Equal MCmp (Some 2) false false TFalse TFalse None false;
+      Cmp 4 Equal MCmp (Some 3) false false TFalse TFalse None false], Completed, s1)
     /\ length (results (sh s1)) = 1.
 Proof. eexists. split; [vm_compute; reflexivity|reflexivity]. Qed.
 
@@ -888,7 +927,7 @@ Lemma lock_held_witness :
   let c := cfg_legacy 5 2 in
   let s := [(1, BEqual); (2, BDrops); (3, BEqual); (4, BDifferent)] in
   exists s1, run_dedicated c s =
-    ([Cmp 1 Equal MCmp (Some 1) false false TFalse TFalse;
+    ([Cmp 1 Equal MCmp (Some 1) false false TFalse TFalse None false;
       failure_cmp 2 MTimeout; failure_cmp 3 MTimeout; failure_cmp 4 MTimeout], Completed, s1)
     /\ rlock (sh s1) = true /\ length (tasks (sh s1)) = 2.
 Proof. eexists. split; [vm_compute; reflexivity|]. split; reflexivity. Qed.
@@ -949,6 +988,27 @@ Lemma demo_bad_run :
     [(EqualizerFailure, MUnload); (EqualizerFailure, MRefused); (Equal, MCmp); (EqualizerFailure, MUnload)] /\
   map (fun w => w_served w) (workers (state_after demo_cfg demo_bad)) = [[3; 4]; [1; 2]] /\
   fst (run_inproc (keep demo_cfg) demo_bad) = map (fun x => single demo_cfg (fst x, BEqual)) demo_bad.
+Proof. repeat split; vm_compute; reflexivity. Qed.
+
+(** verdict shapes: full results with a diff, a subclass instance, a structured (unrenderable) message, a falsy
+    non-text message, a bare value that is no status *)
+Definition demo_shapes : list (rid * behaviour) :=
+  [(1, BReturns (VShape (VEnum Different) VText true false));
+   (2, BReturns (VShape (VEnum Different) VStruct true false));
+   (3, BEqual);
+   (4, BReturns (VShape (VEnum Failed) VText true true));
+   (5, BReturns (VShape VForeign VNone false false));
+   (6, BReturns (VShape (VEnum Fixed) VFalsy false true));
+   (7, BDifferent)].
+
+Lemma demo_shapes_run :
+  forallb (fun x => neutral demo_cfg (snd x)) demo_shapes = true /\
+  fst (run_dedicated demo_cfg demo_shapes) = (map (single demo_cfg) demo_shapes, Completed) /\
+  run_inproc (keep demo_cfg) demo_shapes = (map (single demo_cfg) demo_shapes, Completed) /\
+  map (fun v => (verdict v, message v, vdiff v, vsub v)) (map (single demo_cfg) demo_shapes) =
+    [(Different, MCmp, Some 1, false); (EqualizerFailure, MRender, None, false); (Equal, MCmp, None, false);
+     (Failed, MCmp, Some 4, true); (EqualizerFailure, MRender, None, false); (Fixed, MFalsy, None, true);
+     (Different, MCmp, None, false)].
 Proof. repeat split; vm_compute; reflexivity. Qed.
 
 Lemma demo_neutral_ok : forallb (fun x => neutral demo_cfg (snd x)) demo_neutral = true.
